@@ -7,8 +7,8 @@ import (
 	"fmt"
 	"math/big"
 	"os"
-	"runtime/debug"
 	"reflect"
+	"runtime/debug"
 	"sort"
 	"strconv"
 	"strings"
